@@ -35,8 +35,8 @@ theorem checkBest_of_inv {m st a} (h : StudyInv m st a) : checkBest st = true :=
 theorem checkStudy_of_inv {m st a} (h : StudyInv m st a) : checkStudy m a st = true := by
   unfold checkStudy
   simp only [Bool.and_eq_true, beq_iff_eq, List.all_eq_true]
-  refine ⟨⟨⟨⟨⟨⟨⟨⟨⟨⟨h.ids, ?_⟩, h.cPending⟩, h.cCompleted⟩, h.cInfeasible⟩, h.nFeedbacks⟩, h.nProposals⟩, ?_⟩, ?_⟩,
-    ?_⟩, checkBest_of_inv h⟩
+  refine ⟨⟨⟨⟨⟨⟨⟨⟨⟨⟨⟨h.ids, ?_⟩, h.cPending⟩, h.cCompleted⟩, h.cInfeasible⟩, h.nFeedbacks⟩, h.nProposals⟩, ?_⟩, ?_⟩,
+    ?_⟩, ?_⟩, checkBest_of_inv h⟩
   · cases hm : m with
     | none => rfl
     | some mm => simpa using h.bound mm hm
@@ -46,6 +46,9 @@ theorem checkStudy_of_inv {m st a} (h : StudyInv m st a) : checkStudy m a st = t
     cases hc : t.completed with
     | true => rfl
     | false => simpa using h.pendingLatest t ht hc
+  · cases hsp : a.space with
+    | none => rfl
+    | some sp => simpa using h.spaceBound sp hsp
 
 theorem checkState_of_inv {s : State} (h : Inv s) : checkState s = true := by
   unfold checkState
@@ -78,9 +81,11 @@ theorem reachable_of_run {cfg : LockCfg} {s0 : State} :
   unfold gocAtomic; split <;> rfl
 @[simp] theorem setupAtomic_max (s : State) (w : Nat) : (setupAtomic s w).maxTrials = s.maxTrials := by
   unfold setupAtomic; split <;> rfl
-@[simp] theorem createAtomic_max (s : State) (w : Nat) (st : Study) : (createAtomic s w st).maxTrials = s.maxTrials := by
-  unfold createAtomic; split <;> rfl
-@[simp] theorem nextAtomic_max (s : State) (w : Nat) (st : Study) : (nextAtomic s w st).maxTrials = s.maxTrials := by
+@[simp] theorem createAtomic_max (s : State) (w : Nat) (st : Study) (e1 e2 : Bool) :
+    (createAtomic s w st e1 e2).maxTrials = s.maxTrials := by
+  unfold createAtomic; split <;> (try split) <;> (try split) <;> rfl
+@[simp] theorem nextAtomic_max (s : State) (w : Nat) (st : Study) (e1 e2 : Bool) :
+    (nextAtomic s w st e1 e2).maxTrials = s.maxTrials := by
   unfold nextAtomic; split <;> (try split) <;> simp
 @[simp] theorem measureAtomic_max (s : State) (w : Nat) (st : Study) (t : Nat) (r : Int) :
     (measureAtomic s w st t r).maxTrials = s.maxTrials := by
@@ -108,9 +113,11 @@ theorem maxTrials_exec {cfg : LockCfg} {s s' : State} {w : Nat} {a : Act} (h : e
   unfold gocAtomic; split <;> rfl
 @[simp] theorem setupAtomic_nw (s : State) (w : Nat) : (setupAtomic s w).nWorkers = s.nWorkers := by
   unfold setupAtomic; split <;> rfl
-@[simp] theorem createAtomic_nw (s : State) (w : Nat) (st : Study) : (createAtomic s w st).nWorkers = s.nWorkers := by
-  unfold createAtomic; split <;> rfl
-@[simp] theorem nextAtomic_nw (s : State) (w : Nat) (st : Study) : (nextAtomic s w st).nWorkers = s.nWorkers := by
+@[simp] theorem createAtomic_nw (s : State) (w : Nat) (st : Study) (e1 e2 : Bool) :
+    (createAtomic s w st e1 e2).nWorkers = s.nWorkers := by
+  unfold createAtomic; split <;> (try split) <;> (try split) <;> rfl
+@[simp] theorem nextAtomic_nw (s : State) (w : Nat) (st : Study) (e1 e2 : Bool) :
+    (nextAtomic s w st e1 e2).nWorkers = s.nWorkers := by
   unfold nextAtomic; split <;> (try split) <;> simp
 @[simp] theorem measureAtomic_nw (s : State) (w : Nat) (st : Study) (t : Nat) (r : Int) :
     (measureAtomic s w st t r).nWorkers = s.nWorkers := by
